@@ -1,5 +1,6 @@
 import OnlVerif.Lemmas.KernelStep
 import OnlVerif.Lemmas.KAccess
+import OnlVerif.Lemmas.SplitStep
 import OnlVerif.Props.C01
 /-!
 # C03 — runs are reproducible and unaffected by where they are stopped and resumed
@@ -84,6 +85,50 @@ theorem run_returns_stop_value (body : σ → Resume → Burst ℚ σ) (fuel n :
     (h : step body fuel s = .stopped (.ok v) s') (hok : (s'.ev e).out = some (.ok w)) :
     runLoop body fuel (some e) (n + 1) s = .returned v s' := by
   simp only [runLoop, h, onStop, Option.bind_some, hok]
+
+
+/-! ## Split transparency, stage 1: `step()` splits
+
+The observation trace is the field `KState.trace` of the state, so every equation between results below is in
+particular an equation between traces. -/
+
+/-- **`n + m` calls of `step()` are `n` calls followed by `m` calls from the state reached** — same state, same trace,
+same way of ending (a stop, an exception or an empty agenda in the first piece ends the whole sequence there). -/
+theorem step_split_transparent (body : σ → Resume → Burst ℚ σ) (fuel n m : Nat) (s : KState ℚ σ) :
+    stepN body fuel (n + m) s = (stepN body fuel n s).andThen (stepN body fuel m) :=
+  stepN_add body fuel n m s
+
+/-- **Any split plan of `step()` budgets is the single uninterrupted sequence of the same total length**: the pieces,
+run one after the other, end in the state (and so with the trace) of `plan.sum` consecutive `step()` calls. -/
+theorem step_plan_transparent (body : σ → Resume → Burst ℚ σ) (fuel : Nat) (plan : List Nat) (s : KState ℚ σ) :
+    stepPlan body fuel plan s = stepN body fuel plan.sum s :=
+  stepPlan_eq body fuel plan s
+
+/-- **Two pieces that both returned normally compose to the uninterrupted piece, trace included.** -/
+theorem step_split_trace (body : σ → Resume → Burst ℚ σ) (fuel n m : Nat) (s s1 s2 : KState ℚ σ)
+    (h1 : stepN body fuel n s = .ok s1) (h2 : stepN body fuel m s1 = .ok s2) :
+    stepN body fuel (n + m) s = .ok s2 ∧
+      ∀ s', stepN body fuel (n + m) s = .ok s' → s'.trace = s2.trace := by
+  have h := (stepN_add_ok body fuel n m s s1 h1).trans h2
+  refine ⟨h, ?_⟩
+  intro s' hs'
+  rw [h] at hs'
+  cases hs'
+  rfl
+
+/-- **The loop of `run` with step budget `n + m` is the loop with budget `n`, continued with budget `m` from the state
+in which the budget ran out**; a loop that ended (return, exception) within the first `n` steps is not continued. -/
+theorem run_budget_split (body : σ → Resume → Burst ℚ σ) (fuel : Nat) (u : Option EvId) (n m : Nat) (s : KState ℚ σ) :
+    runLoop body fuel u (n + m) s = (runLoop body fuel u n s).andThen (runLoop body fuel u m) :=
+  runLoop_add body fuel u n m s
+
+/-- **`k` calls of `step()` followed by `run(...)` are that `run(...)` started `k` steps earlier**: a loop that runs out
+of budget after `k` steps did exactly the `k` calls of `step()`, and conversely the loop continues from the state the
+`k` calls reached. -/
+theorem steps_then_run (body : σ → Resume → Burst ℚ σ) (fuel : Nat) (u : Option EvId) (k n : Nat) (s s1 : KState ℚ σ)
+    (h : stepN body fuel k s = .ok s1) :
+    runLoop body fuel u k s = .outOfFuel s1 ∧ runLoop body fuel u (k + n) s = runLoop body fuel u n s1 :=
+  ⟨(runLoop_outOfFuel_iff body fuel u k s s1).mpr h, runLoop_of_stepN_ok body fuel u k n s s1 h⟩
 
 /-
 Not proved (stated for the record): `split_transparent` —
